@@ -126,6 +126,7 @@ def span(t, N):
 def exact(t, src):
     """a non-fixed token of more than one character is a slice of the
     source at its own position (C02)"""
+    src = lift_str(src)
     txt = lift_str(t.fields['txt'])
     p = zint(t.fields['pos'])
     L = txt.ln
@@ -160,6 +161,7 @@ def special_ok(ex, t, N, src=None):
 
 def ok(ex, t, src, with_exact=True):
     """object invariant Ok(t, src) of DESIGN 3.1"""
+    src = lift_str(src)
     N = src.ln
     if isinstance(t.cls, str):
         # concrete class: only the relevant clauses (other fields may not
@@ -215,9 +217,37 @@ def ok(ex, t, src, with_exact=True):
     return And(*parts)
 
 
+def cls_inv(ex, t):
+    """the source-independent part of Ok: class / text consistency"""
+    V = special_table()
+    txt = t.fields['txt']
+    iskey = Or(*[sym.seq_eq(txt, k) for k in V])
+    return And(Implies(cls_is(ex, t, D + 'SpecialToken'), iskey),
+               Implies(cls_is(ex, t, *NONEMPTY), zint(tlen(t)) >= 1),
+               Implies(cls_is(ex, t, *EMPTYCLS), zint(tlen(t)) == 0),
+               Implies(cls_is(ex, t, D + 'AccentToken'), is_accent(txt)),
+               Implies(cls_is(ex, t, D + 'CommentToken'),
+                       lift_str(txt).at(0) == ord('%')),
+               Implies(cls_is(ex, t, D + 'ArgumentToken'),
+                       zint(tfield(t, 'arg', 0)) >= 0))
+
+
+class ClassS(Spec):
+    """a token class object (value of a `tok_typ` parameter)"""
+    def make(self, ex, st):
+        from pyvc.engine import TypeOf
+        c = fresh_int('typ')
+        st.assume(Or(*[c == ex.tag(q) for q in TOKEN_CLASSES]))
+        return TypeOf(c)
+
+    def check(self, ex, st, v, label, line=0):
+        pass
+
+
 def pre_out(ex, t, src):
     """token collected for the text output: Ok, neither markup nor one of
     the maths classes, characters are where they claim to be"""
+    src = lift_str(src)
     return And(ok(ex, t, src), Not(cls_is(ex, t, *MARKUP)),
                Not(cls_is(ex, t, *MATHX)), span(t, src.ln), exact(t, src))
 
@@ -225,6 +255,7 @@ def pre_out(ex, t, src):
 def work_tok(ex, t, src):
     """working tokens of remove_pure_action_lines: like pre_out, but an
     empty token may sit at pos == N (sentinels, fully consumed tokens)"""
+    src = lift_str(src)
     N = src.ln
     strict = Or(zint(tlen(t)) >= 1,
                 cls_is(ex, t, D + 'LanguageToken', D + 'ActionToken'))
@@ -264,6 +295,15 @@ def OutputList(src, lenpred=None):
     return ListS(TokS(lambda ex, t: And(out_final(ex, t, src),
                                         cls_is(ex, t, *OUTPUT)),
                       name='ot'), lenpred, 'output')
+
+
+def parse_out(ex, t, src):
+    """token returned by Parser.parse: an output token of the document, or
+    a language token from the definitions pinned to position 0 (then the
+    text is empty and the position irrelevant)"""
+    return Or(out_final(ex, t, src),
+              And(cls_is(ex, t, D + 'LanguageToken'),
+                  zint(tlen(t)) == 0, zint(t.fields['pos']) == 0))
 
 
 def out_ok(ex, t, src):
